@@ -216,31 +216,71 @@ func c18Dec(kind string, bs []byte) (out *c18ID, err error) {
 }
 
 // c18ReadFrom decodes through the stream decoder (ReadFrom); must agree with FromBinary.
+// A successfully decoded identifier is kept (c18Held) and re-encoded after later decodes: a decoded value must not
+// change when the decoder is used again (no aliasing of scratch buffers).
+type c18Marshaler interface{ MarshalBinary() ([]byte, error) }
+
+type c18HeldID struct {
+	kind string
+	id   c18Marshaler
+	enc  []byte // the bytes it was decoded from (decoders are canonical: MarshalBinary must give them back)
+}
+
+var (
+	c18Held        = map[string][]c18HeldID{}
+	c18HeldChanged []map[string]any
+	c18HeldChecks  int
+)
+
 func c18ReadFrom(kind string, bs []byte) (ok bool) {
 	r := bytes.NewReader(bs)
 	var err error
+	var dec c18Marshaler
 	switch kind {
 	case "KEds":
-		var id shwap.EdsID
+		id := new(shwap.EdsID)
 		_, err = id.ReadFrom(r)
+		dec = id
 	case "KRow":
-		var id shwap.RowID
+		id := new(shwap.RowID)
 		_, err = id.ReadFrom(r)
+		dec = id
 	case "KSample":
-		var id shwap.SampleID
+		id := new(shwap.SampleID)
 		_, err = id.ReadFrom(r)
+		dec = id
 	case "KNd":
-		var id shwap.NamespaceDataID
+		id := new(shwap.NamespaceDataID)
 		_, err = id.ReadFrom(r)
+		dec = id
 	case "KRnd":
-		var id shwap.RowNamespaceDataID
+		id := new(shwap.RowNamespaceDataID)
 		_, err = id.ReadFrom(r)
+		dec = id
 	case "KRange":
-		var id shwap.RangeNamespaceDataID
+		id := new(shwap.RangeNamespaceDataID)
 		_, err = id.ReadFrom(r)
+		dec = id
 	case "KRangeV0":
-		var id shwap.RangeNamespaceDataIDV0
+		id := new(shwap.RangeNamespaceDataIDV0)
 		_, err = id.ReadFrom(r)
+		dec = id
+	}
+	// every identifier decoded earlier must still be the value it was decoded to
+	for _, h := range c18Held[kind] {
+		c18HeldChecks++
+		now, merr := h.id.MarshalBinary()
+		if (merr != nil || !bytes.Equal(now, h.enc)) && len(c18HeldChanged) < 10 {
+			c18HeldChanged = append(c18HeldChanged, map[string]any{"kind": kind, "decoded_from_hex": fmt.Sprintf("%x", h.enc), "now_hex": fmt.Sprintf("%x", now),
+				"after_decoding_hex": fmt.Sprintf("%x", bs)})
+		}
+	}
+	if err == nil && dec != nil && len(bs) == c18Sizes[kind] {
+		hs := append(c18Held[kind], c18HeldID{kind: kind, id: dec, enc: append([]byte{}, bs...)})
+		if len(hs) > 6 {
+			hs = hs[len(hs)-6:]
+		}
+		c18Held[kind] = hs
 	}
 	return err == nil
 }
@@ -273,6 +313,12 @@ func c18Namespaces(rng *zv.Rand) [][]byte {
 func TestVerifC18(t *testing.T) {
 	r := zv.Start(t, "C18")
 	defer r.Finish()
+	defer func() {
+		r.Set("decoded_id_stability_checks", c18HeldChecks)
+		for _, d := range c18HeldChanged {
+			r.Violation("decoded-id-changed:"+fmt.Sprint(d["kind"]), fmt.Sprintf("an identifier decoded by ReadFrom changed its value after a later ReadFrom (decoded from %v, now encodes as %v)", d["decoded_from_hex"], d["now_hex"]), d)
+		}
+	}()
 	g := r.Group("ids", c18Header, "case", "mismatches")
 	rng := r.Rand()
 
